@@ -1065,6 +1065,13 @@ fn gen_cases(seed: u64, thorough: bool) -> Vec<String> {
             let totals: Vec<Vec<usize>> = vec![(0..520).map(|_| match rng.below(4) { 0 => 8192, 1 => 8191, _ => 7800 + rng.below(392) as usize }).collect()];
             out.push(case_line(0, "client", "stall", &totals, &kinds, 150, 4096, 1200, None, 0, 0, rng.next() & 0xffff_ffff));
         }
+        // (2b) WebSocket server, stalled peer, a backlog of hundreds of queued pushes: when the
+        // peer resumes, every binary message must still be exactly one frame
+        {
+            let kinds = vec!['p', 'p', 'p', 'p'];
+            let totals: Vec<Vec<usize>> = (0..4).map(|_| (0..50).map(|_| 18_000 + rng.below(6000) as usize).collect()).collect();
+            out.push(case_line(0, "wsserver", "stall", &totals, &kinds, 0, 4096, 500, None, 0, 0, rng.next() & 0xffff_ffff));
+        }
         // (2') stalled peer, no write timeout: the write just waits
         for ep in eps {
             let nw = 3;
